@@ -28,6 +28,7 @@ Every rule then sees the same tree for
     self.n = self.n - 1        ->  self.n -= 1           (integer constant)
 
     set(x for ..) / list(x for ..) / dict((k, v) for ..)  ->  {x for ..} / [x for ..] / {k: v for ..}
+    dict() / list() / tuple()  ->  {} / [] / ()
 
     x: T = e                   ->  x = e                 (locals and module variables; class-level field declarations stay)
 
@@ -207,6 +208,10 @@ class Canon(ast.NodeTransformer):
 
     def visit_Call(self, node: ast.Call):
         node = self.generic_visit(node)
+        # dict() / list() / tuple() without arguments are the empty displays
+        if isinstance(node.func, ast.Name) and node.func.id in ("dict", "list", "tuple") and node.func.id not in self.shadowed and not node.args and not node.keywords:
+            empty = {"dict": ast.Dict(keys=[], values=[]), "list": ast.List(elts=[], ctx=ast.Load()), "tuple": ast.Tuple(elts=[], ctx=ast.Load())}[node.func.id]
+            return ast.copy_location(empty, node)
         # set(x for ..) / list(x for ..) / dict((k, v) for ..) are the comprehension displays
         if isinstance(node.func, ast.Name) and node.func.id in ("set", "list", "dict") and node.func.id not in self.shadowed and len(node.args) == 1 and not node.keywords and isinstance(node.args[0], ast.GeneratorExp):
             gen = node.args[0]
